@@ -136,6 +136,12 @@ Definition cw_delete (st : cw_store) (k : cw_key) (cascade : bool) : cw_store * 
       else (cw_del_helper (S (length (cs_objs st))) k st, CwrOk)
   end.
 
+(* create / delete in the world: the stages of the other packages are not among the things either of them writes *)
+Definition cw_wcreate (w : cw_world) ty full nc content o : cw_world * cw_res :=
+  let '(st', r) := cw_create (ww_store w) ty full nc content o in ({| ww_store := st'; ww_foreign := ww_foreign w |}, r).
+Definition cw_wdelete (w : cw_world) k cascade : cw_world * cw_res :=
+  let '(st', r) := cw_delete (ww_store w) k cascade in ({| ww_store := st'; ww_foreign := ww_foreign w |}, r).
+
 (* ---------------------------------------------------------------- observations and the oracle *)
 (* what vdrive prints about one tracked (type, name) *)
 Record cw_flags := { fl_obj : bool; fl_active : bool; fl_runtime : bool; fl_item : bool; fl_file : bool }.
